@@ -149,6 +149,8 @@ def execute(op: dict, A, B):
             res = A.concat_with(B)
         elif name == "concat":
             res = Molecules.concat([A, B])
+        elif name == "append_extra":
+            res = A.append(materialise({"cols": ["k"], "rows": [{"uid": 14, "f": {"k": 2}}, {"uid": 15, "f": {"k": 0}}]}))
         elif name == "append":
             res = A.append(B)
         elif name == "with_feature":
